@@ -16,6 +16,7 @@ mod ops_linemeasure;
 mod ops_c18;
 mod ops_poly;
 mod ops_relate;
+mod ops_relpert;
 mod ops_segseg;
 mod ops_simplify;
 mod ops_sweep;
@@ -142,6 +143,7 @@ fn dispatch_case(cx: &mut Ctx, n: u64, case: &Value) {
         "affine_step" => ops_affine::affine_case(cx, n, case),
         "poly" => ops_poly::poly_case(cx, n, case),
         "relate" => ops_relate::relate_case(cx, n, case),
+        "relpert" => ops_relpert::relpert_case(cx, n, case),
         "coordpos" => ops_relate::coordpos_case(cx, n, case),
         "c18_conv" => ops_c18::conv_case(cx, n, case),
         "c18_chain" => ops_c18::chain_case(cx, n, case),
